@@ -96,6 +96,58 @@ def check_oneshot(ck: Checker, rule: str, fns: Iterable[Func]) -> int:
     return n_checked
 
 
+def _is_lazy(v) -> bool:
+    return isinstance(v, ast.GeneratorExp) or (isinstance(v, ast.Call) and isinstance(v.func, ast.Name) and v.func.id in _ONESHOT_CALLS)
+
+
+def check_oneshot_args(ck: Checker, rule: str, fns: Iterable[Func]) -> int:
+    """A generator expression / iterator handed to an in-repo function must not be consumed by that function
+    inside a loop, nor twice along a path (the callee was written for a re-iterable collection)."""
+    n_checked = 0
+    for fn in fns:
+        g = ck.cfg(fn)
+        for x in g.nodes.values():
+            for c in calls_at(x):
+                cands = [(i, None, a) for i, a in enumerate(c.args)] + [(None, k.arg, k.value) for k in c.keywords if k.arg is not None]
+                lazy_args = []
+                for i, kw, a in cands:
+                    if _is_lazy(a):
+                        lazy_args.append((i, kw, a, norm(a)))
+                    elif isinstance(a, ast.Name):
+                        defs = reaching_defs(g, x.id, a.id)
+                        if defs and all(d.kind == "stmt" and isinstance(d.ast, (ast.Assign, ast.AnnAssign)) and _is_lazy(getattr(d.ast, "value", None)) for d in defs):
+                            lazy_args.append((i, kw, a, norm(defs[0].ast.value)))
+                if not lazy_args:
+                    continue
+                for callee in ck.res.resolve(fn, c):
+                    if callee.module.trusted if hasattr(callee.module, "trusted") else False:
+                        continue
+                    pp = callee.pos_params
+                    off = 1 if callee.is_method and pp and pp[0] in ("self", "cls") else 0
+                    for i, kw, a, what in lazy_args:
+                        pname = kw if kw is not None else (pp[i + off] if i + off < len(pp) else None)
+                        if pname is None or not callee.has_param(pname):
+                            continue
+                        n_checked += 1
+                        gc_ = ck.cfg(callee)
+                        uses = []
+                        for y in gc_.nodes.values():
+                            for e in node_exprs(y):
+                                for nm in walk_expr(e):
+                                    if isinstance(nm, ast.Name) and nm.id == pname and isinstance(nm.ctx, ast.Load) and not reaching_defs(gc_, y.id, pname):
+                                        uses.append(y)
+                        def loops_of(y):
+                            # the iterable of a `for` is evaluated once, before its own loop
+                            return [lp for lp in y.loops if not (y.kind == "for" and lp == y.id)]
+                        in_loop = [y for y in uses if loops_of(y)]
+                        twice = any(z.id in gc_.reach([y.id]) and z.id != y.id for y in uses for z in uses)
+                        bad = in_loop[0] if in_loop else (uses[0] if twice else None)
+                        ck.require(bad is None, rule, fn, x, f"the one-shot iterator passed as `{pname}` is consumed once by {callee.name}",
+                                   f"`{what[:60]}` is a one-shot iterator, but {callee.name} consumes its parameter `{pname}` " + ("inside a loop" if in_loop else "more than once") + f" (L{getattr(bad.ast, 'lineno', '?') if bad is not None else '?'}: {bad.text()[:50] if bad is not None else ''}): after the first pass it is empty, so later look-ups silently see nothing",
+                                   construct=f"{norm(c)[:50]} / one-shot argument {pname}")
+    return n_checked
+
+
 def check_chained_mutable(ck: Checker, rule: str, fns: Iterable[Func]) -> int:
     """`a = b = []` binds two names to ONE container."""
     n = 0
@@ -174,7 +226,7 @@ def check_fresh_per_iteration(ck: Checker, rule: str, fn: Func) -> int:
 
 def run_all(ck: Checker, rule: str, *mods: str, fresh_in: Iterable[Func] = ()) -> None:
     fns = module_funcs(ck, *mods)
-    n = check_oneshot(ck, rule, fns) + check_chained_mutable(ck, rule, fns) + check_shared_return(ck, rule, fns)
+    n = check_oneshot(ck, rule, fns) + check_oneshot_args(ck, rule, fns) + check_chained_mutable(ck, rule, fns) + check_shared_return(ck, rule, fns)
     for f in fresh_in:
         n += check_fresh_per_iteration(ck, rule, f)
     ck.extra_decided.append(f"{rule}: in {', '.join(mods)} no one-shot iterator is consumed in a loop or twice, no `a = b = []` shares an accumulator, no function hands out a module-level mutable container" + (", and containers stored per loop iteration are created per iteration" if list(fresh_in) else ""))
